@@ -679,7 +679,21 @@ impl<'a, T: Transport> Transferrer<'a, T> {
                         );
                         Ok(None)
                     } else {
-                        let result = self.copy_file(target, dest_path).await?;
+                        // A regular file that is already in the link's place is updated like any
+                        // other file: a large one is rebuilt beside it and renamed into place. (It
+                        // used to be truncated and rewritten where it was: killed there it held
+                        // neither its old nor its new content.)
+                        let existing_file = matches!(
+                            std::fs::symlink_metadata(dest_path),
+                            Ok(ref m) if m.is_file()
+                        );
+                        let result = if existing_file {
+                            self.transport
+                                .sync_file_with_delta(target, dest_path)
+                                .await?
+                        } else {
+                            self.copy_file(target, dest_path).await?
+                        };
                         tracing::debug!(
                             "Followed symlink and copied target: {} -> {}",
                             target.display(),
